@@ -518,8 +518,13 @@ class Executor(ExprMixin, StmtMixin, LoopMixin):
         for a in node.args:
             if isinstance(a, ast.Starred):
                 sv = self.eval(a.value, st)
+                sv = self.deopt(sv, st, node) if isinstance(sv.ty, T.Opt) else sv
                 if sv.is_py and isinstance(sv.py, (list, tuple)):
                     args.extend(x if isinstance(x, Val) else Val.const(x) for x in sv.py)
+                elif isinstance(sv.ty, T.Tuple) and not sv.is_py:
+                    # a tuple VALUE has a fixed arity: its components
+                    ts = sv.ty.sort()
+                    args.extend(Val(it, ts.accessor(0, k)(sv.term)) for k, it in enumerate(sv.ty.items))
                 else:
                     raise Unsupported("*args of symbolic length", node)
             elif isinstance(a, ast.GeneratorExp):
